@@ -307,6 +307,12 @@ def _cog_block_compressor_syx(
     return bytes(block.data)
 
 
+def _fill_value(meta: CogMeta) -> Union[float, int]:
+    if meta.nodata is not None:
+        return float(meta.nodata) if isinstance(meta.nodata, str) else meta.nodata
+    return 0
+
+
 def _mk_tile_compressor(
     meta: CogMeta, sample_idx: int = 0
 ) -> Callable[[np.ndarray], bytes]:
@@ -324,9 +330,7 @@ def _mk_tile_compressor(
     if meta.predictor != 1:
         predictor = TIFF.PREDICTORS[meta.predictor]
 
-    fill_value: Union[float, int] = 0
-    if meta.nodata is not None:
-        fill_value = float(meta.nodata) if isinstance(meta.nodata, str) else meta.nodata
+    fill_value = _fill_value(meta)
 
     if meta.axis == "SYX":
         return partial(
@@ -347,6 +351,26 @@ def _mk_tile_compressor(
         fill_value=fill_value,
         **meta.compressionargs,
     )
+
+
+def _pad_to_cog_shape(data: "dask.array.Array", meta: CogMeta) -> "dask.array.Array":
+    """
+    Pad source on the right/bottom up to the (padded) COG image shape.
+
+    COG padding can add whole tiles for which the source has no chunk at all.
+    """
+    # pylint: disable=import-outside-toplevel
+    from dask import array as da
+
+    ydim = data.ndim - 2 if meta.axis == "SYX" else 0
+    ny, nx = data.shape[ydim : ydim + 2]
+    pad_y, pad_x = max(meta.shape.y - ny, 0), max(meta.shape.x - nx, 0)
+    if pad_y == 0 and pad_x == 0:
+        return data
+
+    pad = [(0, 0)] * data.ndim
+    pad[ydim], pad[ydim + 1] = (0, pad_y), (0, pad_x)
+    return da.pad(data, pad, "constant", constant_values=_fill_value(meta))
 
 
 def _compress_cog_tile(encoder, block, idx):
@@ -375,6 +399,7 @@ def _compress_tiles(
 
     data = xx.data
     assert is_dask_collection(data)
+    data = _pad_to_cog_shape(data, meta)
 
     if meta.axis == "SYX":
         src_ydim = 1
